@@ -7,6 +7,10 @@ import (
 	"fmt"
 	"math"
 	"math/big"
+	"regexp"
+	"strconv"
+	"strings"
+	"sync"
 	"sync/atomic"
 	"testing"
 	"time"
@@ -282,7 +286,140 @@ func TestVf_C19(t *testing.T) {
 		run.Count("durations_checked_"+cs.Mode, int64(len(cs.Attempts)))
 		vfBackoffRun(run, cs)
 	}
+	// the delays a StreamManager really sleeps, read off the goroutine dump (no clock involved)
+	for i := 0; i < vfkit.Pick(1, 6) && !run.Enough(); i++ {
+		vfC19Outages(run, i)
+	}
 	if run.NViolations() > 0 {
 		t.Fail()
 	}
+}
+
+var vfSleepArg = regexp.MustCompile(`(?m)^time\.Sleep\(0x([0-9a-f]+)\)`)
+
+// vfC19Outages: a StreamManager goes through two outages - 6 failed attempts, a session, then 3 failed attempts, a
+// session. While its retry loop sleeps, the goroutine dump shows the argument of time.Sleep: the delay before the
+// attempt that follows f consecutive failures must not exceed base*factor^f (the peer counts the failures of the
+// outage; the count is read after the dump, so it can only be too high - which only loosens the bound).
+func vfC19Outages(run *vfkit.Run, idx int) {
+	cs := map[string]interface{}{"mode": "stream-manager-outages", "failures": []int{6, 3}, "index": idx}
+	run.Case(cs)
+	var failures, sessions int32 // failures of the current outage; sessions established so far
+	plan := []int32{0, 6, 3}     // failures to inflict before the k-th session
+	cmds := make(chan *vfPeerConn, 8)
+	peer := vfNewPeer(func(pc *vfPeerConn) {
+		hdr, err := pc.Expect("stream")
+		if err != nil {
+			return
+		}
+		k := atomic.LoadInt32(&sessions)
+		if int(k) < len(plan) && atomic.LoadInt32(&failures) < plan[k] {
+			// a server that is shutting down: says so and ends the stream at once (the client does not have to wait for
+			// any timeout to learn that this attempt failed)
+			atomic.AddInt32(&failures, 1)
+			pc.Send(vfStreamHeader("jabber:client", "down", "localhost") + "<stream:error><system-shutdown xmlns='urn:ietf:params:xml:ns:xmpp-streams'/></stream:error></stream:stream>")
+			pc.idle = 300 * time.Millisecond
+			for {
+				if _, err := pc.Next(); err != nil {
+					return
+				}
+			}
+		}
+		pc.pushback = &hdr // the script below starts with the client's stream header
+		if _, err := pc.Negotiate(&vfNeg{Bind: true, ExpectPresence: k == 0}); err != nil {
+			return
+		}
+		atomic.StoreInt32(&failures, 0)
+		atomic.AddInt32(&sessions, 1)
+		cmds <- pc
+		for {
+			if e, err := pc.Next(); err != nil || e.Kind == "close" {
+				return
+			}
+		}
+	})
+	defer peer.Stop()
+	c, _, err := vfNewClient(vfClientOpt{Addr: peer.Addr(), Insecure: true}, nil)
+	if err != nil {
+		run.Inconclusive("newclient")
+		return
+	}
+	sm := NewStreamManager(c, nil)
+	done := make(chan error, 1)
+	go func() { done <- sm.Run() }()
+	defer func() { go sm.Stop() }()
+	needle := fmt.Sprintf("gosrc.io/xmpp.(*StreamManager).resume(%p", sm)
+	stopSampler := make(chan struct{})
+	var samples int64
+	var worst string
+	var mu sync.Mutex
+	go func() {
+		for {
+			select {
+			case <-stopSampler:
+				return
+			default:
+			}
+			for _, g := range vfGoroutines() {
+				if !strings.Contains(g.Text, needle) {
+					continue
+				}
+				m := vfSleepArg.FindStringSubmatch(g.Text)
+				if m == nil {
+					continue
+				}
+				ns, err := strconv.ParseInt(m[1], 16, 64)
+				if err != nil {
+					continue
+				}
+				f := int(atomic.LoadInt32(&failures)) // read after the dump
+				bound := vfRefBackoff(0, 0, 0, f)     // defaults: 20 ms * 2^f, capped at three minutes
+				atomic.AddInt64(&samples, 1)
+				if ns > bound*int64(time.Millisecond) {
+					mu.Lock()
+					if worst == "" {
+						worst = fmt.Sprintf("after at most %d consecutive failed attempts the retry loop sleeps %v, more than base*factor^n = %dms", f, time.Duration(ns), bound)
+					}
+					mu.Unlock()
+				}
+			}
+			time.Sleep(300 * time.Microsecond)
+		}
+	}()
+	defer close(stopSampler)
+	for k := 0; k < len(plan); k++ {
+		select {
+		case pc := <-cmds:
+			if k < len(plan)-1 {
+				pc.Close() // the loss that starts the next outage
+			}
+		case err := <-done:
+			run.Inconclusive("stream-manager-ended")
+			run.Note(fmt.Sprint(err))
+			return
+		case <-time.After(60 * time.Second):
+			mu.Lock()
+			w := worst
+			mu.Unlock()
+			if w != "" {
+				run.Violation("C19/above-reference:stream-manager-outage", w, cs)
+			} else {
+				run.Inconclusive("outage-watchdog")
+			}
+			return
+		}
+		mu.Lock()
+		w := worst
+		mu.Unlock()
+		if w != "" {
+			run.Violation("C19/above-reference:stream-manager-outage", w, cs)
+			return
+		}
+	}
+	if n := atomic.LoadInt64(&samples); n < 3 {
+		run.Inconclusive("too-few-sleep-samples")
+		return
+	}
+	run.Count("retry_loop_sleeps_sampled", atomic.LoadInt64(&samples))
+	run.Nontrivial(fmt.Sprintf("outages|%d", idx))
 }
